@@ -11,7 +11,7 @@ command -v $GO >/dev/null 2>&1 || GO=/opt/veriftools/go1.26.8/bin/go
 prop="$1"; tier="${2:-quick}"; shift; shift || true
 bin="bin/simcheck.$$"
 mkdir -p bin
-if ! $GO build -tags verif -o "$bin" ./cmd/simcheck 2> "bin/build.$$.log"; then
+if ! $GO test -c -vet=off -tags verif -o "$bin" ./cmd/simcheck 2> "bin/build.$$.log"; then
   echo "infrastructure trouble: build failed (the tree under /repo does not compile with the verif hooks):"
   cat "bin/build.$$.log"
   rm -f "$bin" "bin/build.$$.log"
